@@ -18,12 +18,15 @@ package validator
 //@   ensures [C11:nil] eventChan == nil ==> chanClosed == old(chanClosed)
 
 //@ func GenerateRego(profileText string, debug bool, eventChan *chan e.Event) (*generator.RegoUnit, error)
+//@   ensures [C17:non-nil] result1 == nil ==> result0 != nil
 //@   ensures [C08:no-compile] opaRejected == old(opaRejected) && opaEvaluated == old(opaEvaluated)
 //@   requires [C11:fresh] eventChan != nil ==> (chanClosed == 0 && !evOpen && evNext == 0)
 //@   ensures [C11:stages] eventChan != nil ==> (chanClosed == old(chanClosed) && !evOpen && (result1 == nil ==> evNext == 2) && (result1 != nil ==> (evNext == 1 || evNext == 2)))
 //@   ensures-assumed [C18:lib-function] result1 == libRegoErr(profileText) && (result1 == nil ==> result0 != nil && deref(result0).Code == libRegoCode(profileText)) && stdout == old(stdout)
 
 //@ func CompileRego(regoUnit *generator.RegoUnit, eventChan *chan e.Event) (*rego.PreparedEvalQuery, error)
+//@   requires regoUnit != nil
+//@   ensures [C17:non-nil] result0 != nil
 //@   requires [C08:not-yet] !opaRejected
 //@   ensures [C08:rejection-is-an-error] opaRejected ==> result1 != nil
 //@   ensures [C08:no-evaluation] opaEvaluated == old(opaEvaluated)
@@ -31,6 +34,7 @@ package validator
 //@   ensures [C11:stages] eventChan != nil ==> (chanClosed == old(chanClosed) && !evOpen && evNext == 3)
 
 //@ func ProcessProfile(profileText string, debug bool, eventChan *chan e.Event) (*rego.PreparedEvalQuery, error)
+//@   ensures [C17:non-nil] result1 == nil ==> result0 != nil
 //@   requires [C08:not-yet] !opaRejected
 //@   ensures [C08:rejection-is-an-error] opaRejected ==> result1 != nil
 //@   ensures [C08:no-evaluation] opaEvaluated == old(opaEvaluated)
@@ -54,11 +58,13 @@ package validator
 //@   ensures [C17:nonnil] result0 != nil
 
 //@ func processResult(result *rego.ResultSet, eventChan *chan e.Event, validationConfig c.ValidationConfiguration, reportConfig c.ReportConfiguration) (string, error)
+//@   requires result != nil && validationConfig != nil
 //@   ensures [C08:no-opa] opaRejected == old(opaRejected)
 //@   requires [C11:evaluated] eventChan != nil ==> (chanClosed == 0 && !evOpen && evNext == 6)
 //@   ensures [C11:stages] eventChan != nil ==> (chanClosed == old(chanClosed) && !evOpen && evNext == 7)
 
 //@ func ValidateCompiledWithConfiguration(compiledRegoPtr *rego.PreparedEvalQuery, jsonldText string, debug bool, eventChan *chan e.Event, validationConfig c.ValidationConfiguration, reportConfig c.ReportConfiguration) (string, error)
+//@   requires compiledRegoPtr != nil && validationConfig != nil
 //@   requires [C04:not-yet] !ldRejected
 //@   ensures [C04:jsonld-rejected-no-verdict] ldRejected ==> (result1 != nil && result0 == "")
 //@   ensures [C08:no-compile] opaRejected == old(opaRejected)
@@ -68,6 +74,7 @@ package validator
 //@   ensures-assumed [C09:function-of-inputs] compiledRegoPtr != nil ==> (result0 == libCompiledReport(deref(compiledRegoPtr), jsonldText, validationConfig, reportConfig) && result1 == libCompiledReportErr(deref(compiledRegoPtr), jsonldText, validationConfig, reportConfig))
 
 //@ func ValidateWithConfiguration(profileText string, jsonldText string, debug bool, eventChan *chan e.Event, validationConfig c.ValidationConfiguration, reportConfig c.ReportConfiguration) (string, error)
+//@   requires validationConfig != nil
 //@   requires [C04:not-yet] !ldRejected
 //@   ensures [C04:jsonld-rejected-no-verdict] ldRejected ==> (result1 != nil && result0 == "")
 //@   requires [C08:not-yet] !opaRejected && !opaEvaluated
@@ -90,6 +97,7 @@ package validator
 //@   ensures-assumed [C18:lib-function] result0 == libReport(profileText, jsonldText) && result1 == libReportErr(profileText, jsonldText) && stdout == old(stdout)
 
 //@ func ValidateCompiled(compiledRegoPtr *rego.PreparedEvalQuery, jsonldText string, debug bool, eventChan *chan e.Event) (string, error)
+//@   requires compiledRegoPtr != nil
 //@   requires [C04:not-yet] !ldRejected
 //@   ensures [C04:jsonld-rejected-no-verdict] ldRejected ==> (result1 != nil && result0 == "")
 //@   requires [C11:compiled] eventChan != nil ==> (chanClosed == 0 && !evOpen && evNext == 3)
@@ -142,6 +150,7 @@ package validator
 //@     invariant [C03] forall k int :: len(violations) + len(warnings) <= k && k < len(violations) + len(warnings) + #i ==> (results[k] == infos[k - len(violations) - len(warnings)] && results[k].(map[string]any)["resultSeverity"] == box(string, "http://www.w3.org/ns/shacl#Info"))
 
 //@ func ValidationReportNode(profileName string, results []any, conforms bool, validationConfig c.ValidationConfiguration, reportConfig c.ReportConfiguration) types.ObjectMap
+//@   requires validationConfig != nil
 //@   requires [C03:conforms-iff-no-violation] conforms == (forall k int :: 0 <= k && k < len(results) ==> results[k].(map[string]any)["resultSeverity"] != box(string, "http://www.w3.org/ns/shacl#Violation"))
 //@   requires [C03:every-result-has-a-level-severity] forall k int :: 0 <= k && k < len(results) ==> (results[k].(map[string]any)["resultSeverity"] == box(string, "http://www.w3.org/ns/shacl#Violation") || results[k].(map[string]any)["resultSeverity"] == box(string, "http://www.w3.org/ns/shacl#Warning") || results[k].(map[string]any)["resultSeverity"] == box(string, "http://www.w3.org/ns/shacl#Info"))
 //@   ensures [C03:fresh] ref(result) > old(alloc)
@@ -165,6 +174,8 @@ package validator
 //@   ensures [C03:frame] forall m map[string]any :: ref(m) <= old(alloc) ==> unchanged(m)
 
 //@ func BuildReport(resultPtr *rego.ResultSet, validationConfig c.ValidationConfiguration, reportConfig c.ReportConfiguration) (string, error)
+//@   requires resultPtr != nil && validationConfig != nil
+//@   requires-assumed [C17:A-OPA8] len(deref(resultPtr)) >= 1 ==> (len(deref(resultPtr)[0].Expressions) >= 1 && deref(resultPtr)[0].Expressions[0] != nil && is(deref(deref(resultPtr)[0].Expressions[0]).Value, map[string]any) && is(deref(deref(resultPtr)[0].Expressions[0]).Value.(map[string]any)["profile"], string) && is(deref(deref(resultPtr)[0].Expressions[0]).Value.(map[string]any)["violation"], []any) && is(deref(deref(resultPtr)[0].Expressions[0]).Value.(map[string]any)["warning"], []any) && is(deref(deref(resultPtr)[0].Expressions[0]).Value.(map[string]any)["info"], []any))
 //@   verify [C03]
 
 // ---- lexical index (C14) ----------------------------------------------------------------------------------------------
